@@ -234,7 +234,7 @@ func genScript(r *vh.Rand, n int) string {
 	var parts []string
 	for k := 0; k < n; k++ {
 		if r.Chance(1, 7) {
-			parts = append(parts, fmt.Sprintf("%d:%s", k, r.Pick([]string{"s500", "s404", "s201", "g", "n", "m", "h"})))
+			parts = append(parts, fmt.Sprintf("%d:%s", k, r.Pick([]string{"s500", "s404", "s201", "g", "t", "t", "n", "m", "h"})))
 		}
 	}
 	if len(parts) == 0 {
@@ -327,7 +327,7 @@ func gen(r *vh.Rand, tier string) []string {
 		out = append(out, genInst(r))
 	}
 	for i := 0; i < 6*mul; i++ {
-		out = append(out, fmt.Sprintf("iter %d %d %d", r.Range(1, 6), r.Range(1, 200), r.Range(1, 7)))
+		out = append(out, fmt.Sprintf("iter %d %d %d %d", r.Range(2, 6), r.Range(1, 200), r.Range(1, 7), 1500))
 	}
 	return out
 }
